@@ -60,6 +60,15 @@ pub mod c06 {
             }
         };
     }
+    /// Name::new_field_name: the bytes of the name as given (a NameSeg inside a field list)
+    #[kani::proof]
+    #[kani::unwind(8)]
+    pub fn q_name_new_field_name() {
+        let (s, bytes) = sym_static_str::<4>();
+        let r: Rec<6> = Rec::of(&Name::new_field_name(s));
+        assert!(r.eq_bytes(&bytes, 4), "C06: field name object = the four name characters verbatim");
+        kani::cover!(true, "REACHED");
+    }
     string_harness!(q_string_0, 0);
     string_harness!(q_string_1, 1);
     string_harness!(q_string_4, 4);
